@@ -294,6 +294,17 @@ class Obj:
         return 'Obj(' + ', '.join(f'{k}={v!r}' for k, v in self.__dict__.items()) + ')'
 
 
+def _dup_named(base, name='DupSeq'):
+    """A user collection class derived from `base`; every class made here has the same module, __name__ and __qualname__."""
+    cls = type(base)(name, (base,), {'__module__': __name__, '__qualname__': name, '__hash__': None})
+    return cls
+
+
+DupSeqA = _dup_named(UMSeq)          # a MutableSequence called DupSeq
+DupSeqB = _dup_named(USeq)           # a (read-only) Sequence called DupSeq
+DupSeqC = _dup_named(UColl)          # a mere Collection called DupSeq
+
+
 class NeverEq:
     """An object that is not even equal to itself (like NaN, but of a user class)."""
     def __eq__(self, other):
@@ -366,7 +377,7 @@ FinI = typing.Final[int]
 
 # Names visible to eval() of rendered hint / object sources (replay scripts).
 NAMESPACE = {
-    'NEQ': NEQ, 'NAN': NAN, 'GReg': GReg, 'GOut': GOut, 'TD': TD, 'TDo': TDo, 'NT': NT, 'DC': DC, 'UCM': UCM, 'AL': AL, 'ALg': ALg, 'ALr': ALr, 'ALgi': ALgi, 'TupU': TupU, 'TupUU': TupUU,
+    'DupSeqA': DupSeqA, 'DupSeqB': DupSeqB, 'DupSeqC': DupSeqC, 'NEQ': NEQ, 'NAN': NAN, 'GReg': GReg, 'GOut': GOut, 'TD': TD, 'TDo': TDo, 'NT': NT, 'DC': DC, 'UCM': UCM, 'AL': AL, 'ALg': ALg, 'ALr': ALr, 'ALgi': ALgi, 'TupU': TupU, 'TupUU': TupUU,
     'PatS': PatS, 'MatS': MatS, 'GenI': GenI, 'CtxI': CtxI, 'PathS': PathS, 'InitI': InitI, 'FinI': FinI, 're': re, 'pathlib': pathlib,
     'K': K, 'K2': K2, 'Other': Other, 'E': E, 'IE': IE, 'NL': NL, 'NF': NF, 'TF': TF, 'TL': TL, 'TU': TU, 'N': N, 'T': T, 'TB': TB, 'TC': TC, 'P': P, 'PImpl': PImpl,
     'G': G, 'GL': GL, 'USeq': USeq, 'UMSeq': UMSeq, 'UMap': UMap, 'UMMap': UMMap, 'USet': USet,
